@@ -13,6 +13,7 @@ import (
 
 	"github.com/KevoDB/kevo/pkg/config"
 	"github.com/KevoDB/kevo/pkg/engine"
+	"github.com/KevoDB/kevo/pkg/wal"
 	"github.com/KevoDB/kevo/pkg/engine/storage"
 	"github.com/KevoDB/kevo/pkg/zzverif/vsched"
 	"github.com/KevoDB/kevo/pkg/zzverif/vtime"
@@ -55,7 +56,7 @@ func (o EngOp) String() string {
 		return fmt.Sprintf("delF(%q)", o.Key)
 	case "del":
 		return fmt.Sprintf("del(%q)", o.Key)
-	case "txc", "txr", "txa", "txclosed":
+	case "txc", "txr", "txa", "txclosed", "abatch":
 		var s []string
 		for _, x := range o.Sub {
 			s = append(s, x.String())
@@ -275,6 +276,35 @@ func (r *EngRun) Apply(o EngOp) error {
 		} else {
 			if rerr := tx.Rollback(); rerr != nil {
 				err = rerr
+			}
+		}
+	case "abatch":
+		// the engine's batch call with raw entries (no transaction buffer in front of it): operations on one key keep
+		// their order inside the batch, the last one wins
+		var ents []*wal.Entry
+		tmp := map[string][]byte{}
+		dels := map[string]bool{}
+		for i, s := range o.Sub {
+			if s.Kind == "put" {
+				v := []byte(fmt.Sprintf("v%d.%d", r.Step, i))
+				if s.Val != "" {
+					v = r.val(s)
+				}
+				ents = append(ents, &wal.Entry{Type: wal.OpTypePut, Key: []byte(s.Key), Value: v})
+				tmp[s.Key] = v
+				delete(dels, s.Key)
+			} else {
+				ents = append(ents, &wal.Entry{Type: wal.OpTypeDelete, Key: []byte(s.Key)})
+				delete(tmp, s.Key)
+				dels[s.Key] = true
+			}
+		}
+		if err = r.Eng.ApplyBatch(ents); err == nil {
+			for k, v := range tmp {
+				r.Model[k] = v
+			}
+			for k := range dels {
+				delete(r.Model, k)
 			}
 		}
 	case "putF", "delF":
